@@ -278,6 +278,13 @@ func forcedVar(enc *json.Encoder, scenario int) int {
 func forcedSet(enc *json.Encoder, scenario int) int {
 	r := newObsRun("set")
 	set := hive.NewSet[int]()
+	var src hive.Set[int]
+	if scenario == 3 { // a DerivedSet that inherits from src and is written directly too
+		d := hive.NewDerivedSet[int]()
+		src = hive.NewSet[int]()
+		d.InheritFrom(src)
+		set = d
+	}
 	q := func() { sched.Quiesce(2 * time.Second) }
 	hive.VerifHook = func(p string) { r.gate.Wait("hook:" + p) }
 	gone := func(s int) { r.mu.Lock(); r.gone[s] = true; r.mu.Unlock() }
@@ -327,6 +334,19 @@ func forcedSet(enc *json.Encoder, scenario int) int {
 		q()
 		r.gate.ReleaseAll()
 		subs = []int{1}
+	case 3:
+		// a direct write is held between its update of the value and the notifications while the source removes and adds
+		// the element again (an inherited write of the same set): the subscribers must still be told in the order of the updates
+		src.Add(1)
+		sub(1)
+		sub(2)
+		r.gate.Hold("hook:set-after-update")
+		r.spawn(101, func() { set.Delete(1) })
+		q()
+		r.gate.Free("hook:set-after-update")
+		r.spawn(102, func() { src.Delete(1); src.Add(1) })
+		q()
+		r.gate.ReleaseAll()
 	}
 	hung := r.wait(5 * time.Second)
 	hive.VerifHook = nil
@@ -340,11 +360,11 @@ func forcedSet(enc *json.Encoder, scenario int) int {
 // and unsubscribe; an unsubscribe arriving between the execution-lock check and the callback; ...).
 func controlled(enc *json.Encoder, rng *rand.Rand, kind string) int {
 	r := newObsRun(kind)
+	set, src := derivedOrPlain(rng)
 	r.gate.HoldAll()
 	hive.VerifHook = func(p string) { r.gate.Wait("hook:" + p) }
 	defer func() { hive.VerifHook = nil }()
 	v := hive.NewVariable[int]()
-	set := hive.NewSet[int]()
 	nw, ns := 1+rng.Intn(3), 1+rng.Intn(3)
 	subs := []int{}
 	for w := 1; w <= nw; w++ {
@@ -356,6 +376,10 @@ func controlled(enc *json.Encoder, rng *rand.Rand, kind string) int {
 					r.write(v, w*1000+i, rg.Intn(2) == 0)
 				} else {
 					x := 1 + rg.Intn(4)
+					set := set
+					if src != nil && rg.Intn(2) == 0 {
+						set = src // an inherited write
+					}
 					switch rg.Intn(4) {
 					case 0:
 						set.Add(x)
@@ -484,9 +508,21 @@ func sortedSet(s ds.ReadableSet[int]) []any {
 	return core.Seq(xs)
 }
 
+// derivedOrPlain: the observed set is a plain Set, or (every other time) a DerivedSet that inherits from the Set src and
+// is written directly as well: both kinds of write change one set and are reported to one list of subscribers.
+func derivedOrPlain(rng *rand.Rand) (set, src hive.Set[int]) {
+	if rng.Intn(2) == 0 {
+		return hive.NewSet[int](), nil
+	}
+	d := hive.NewDerivedSet[int]()
+	src = hive.NewSet[int]()
+	d.InheritFrom(src)
+	return d, src
+}
+
 func freeSet(enc *json.Encoder, rng *rand.Rand, tr int) int {
 	r := newObsRun("set")
-	set := hive.NewSet[int]()
+	set, src := derivedOrPlain(rng)
 	if tr%5 == 4 {
 		runtime.GOMAXPROCS(1)
 	} else {
@@ -505,6 +541,10 @@ func freeSet(enc *json.Encoder, rng *rand.Rand, tr int) int {
 		rg := rand.New(rand.NewSource(rng.Int63()))
 		r.spawn(100+w, func() {
 			for i := 0; i < per; i++ {
+				set := set
+				if src != nil && rg.Intn(2) == 0 {
+					set = src // an inherited write
+				}
 				switch rg.Intn(7) {
 				case 0:
 					set.Add(1 + rg.Intn(6))
@@ -584,7 +624,7 @@ func reactObs(args []string) int {
 		hangs += forcedVar(enc, sc)
 		n++
 	}
-	for sc := 0; sc < 3; sc++ {
+	for sc := 0; sc < 4; sc++ {
 		hangs += forcedSet(enc, sc)
 		n++
 	}
